@@ -105,6 +105,7 @@ pub async fn backup(
             Exclude::nothing(),
             monitor.clone(),
         )
+        .stop_at_unreadable_band()
     } else {
         Stitch::empty(archive, monitor.clone())
     };
